@@ -30,6 +30,7 @@ func checkC14(c *Ctx) {
 	c.checkEvictionDetachesAll()
 	c.checkCleanupOrder()
 	c.checkAtomicRMW()
+	c.checkCollectorChannel()
 }
 
 // ---------------------------------------------------------------------------------------------
